@@ -18,3 +18,5 @@ def run(prog, rep):
     _rc.run_hid_owner(prog, rep)
     from ..rules import r_key as _rk2
     _rk2.run_const_pure(prog, rep)
+    from ..rules import r_ver as _rv9
+    _rv9.run(prog, rep)
